@@ -63,6 +63,20 @@ PROPS = {
         trusted_base=[GO_LIBS, "go-pfcp IE constructors/accessors", "net.ParseCIDR, strconv.ParseUint, strings.Fields (hand models)"],
         assumptions=["IPv4 only", "PFD Management message handling is exercised at system level, not here"],
     ),
+    "C19": dict(
+        lean=["Upf.Props.C19"],
+        claim="calc_exact is proved about the definition REGENERATED from web_service.go, for all 2^64 rates and every unit string: a non-zero rate whose "
+              "converted value fits 63 bits is converted exactly; the handler model answers [201]+programs / [400]+nothing / [405]+nothing. "
+              "Tied by T1 (function body, unit constants) and by black-box HTTP requests against the real agent with the slice-meter commands observed "
+              "at the harness BESS server (T2).",
+        note="Trusted: Lean kernel + standard axioms; net/http and encoding/json (a body counts as malformed iff Go's decoder says so); the extractor's "
+             "expression translator; the fake BESS server. The UP4 side (AddSliceInfo on P4) is covered with C04/C16.",
+        rule="conversion grid: 9 unit strings x (boundaries floor((2^63-1)/unit)+-2, powers of two, 2^63, 2^64-1, random of three shapes); REST: 60+ documents "
+             "(6 unit forms x 10 rate boundaries x burst classes, random), 16 malformed bodies x PUT/POST, bodies shorter than Content-Length, 7 other methods; "
+             "non-trivial = a request answered 201, or a distinct conversion case",
+        trusted_base=[GO_LIBS, "net/http, encoding/json", "fake BESS server (harness/internal/sysh/bess.go)"],
+        assumptions=["BESS datapath for the black-box part"],
+    ),
 }
 
 NOT_APPLICABLE = {}
